@@ -436,8 +436,9 @@ class Reader:
             name = self.last_name
             assert self.zone_origin is not None
             if not name.is_subdomain(self.zone_origin):
-                self._eat_line()
-                return
+                # This generated owner is outside the zone; the following ones may
+                # not be.
+                continue
             if self.relativize:
                 name = name.relativize(self.zone_origin)
 
